@@ -36,14 +36,14 @@ TARGETS = {
     "8086": dict(cpu="8086", origins=[0, 0x100], table=0x4000, byte="db", be=False, wordsz=2),
 }
 KINDS = {
-    "68000": ["word", "abs", "jmp", "bra", "bsr", "bcc", "equ"],
-    "68020": ["word", "abs", "jmp", "bra", "bsr", "bcc", "equ"],
+    "68000": ["word", "abs", "jmp", "bra", "bsr", "bsrx", "bcc", "equ"],
+    "68020": ["word", "abs", "jmp", "bra", "bsr", "bsrx", "bcc", "equ"],
     "6502": ["word", "abs", "jmp", "sbra", "equ"],
     "6809": ["word", "abs", "jmp", "bra", "sbra", "equ"],
     "6811": ["word", "abs", "jmp", "sbra", "equ"],
     "8086": ["word", "abs", "bra", "equ"],
 }
-MAXSZ = dict(word=4, abs=6, jmp=6, bra=4, bsr=4, bcc=4, sbra=2, equ=4)
+MAXSZ = dict(word=4, abs=6, jmp=6, bra=4, bsr=4, bsrx=4, bcc=4, sbra=2, equ=4)
 
 
 def budget(tier):
@@ -144,9 +144,9 @@ def render(case):
             L.append(mark)
             op = {
                 "68000": dict(word="dc.l lab%d", abs="lea lab%d,a0", jmp="jmp lab%d", bra="bra lab%d", bsr="bsr lab%d",
-                              bcc="beq lab%d", equ="dc.l equ%d"),
+                              bsrx="bsr lab%d+0", bcc="beq lab%d", equ="dc.l equ%d"),
                 "68020": dict(word="dc.l lab%d", abs="lea lab%d,a0", jmp="jmp lab%d", bra="bra lab%d", bsr="bsr lab%d",
-                              bcc="beq lab%d", equ="dc.l equ%d"),
+                              bsrx="bsr lab%d+0", bcc="beq lab%d", equ="dc.l equ%d"),
                 "6502": dict(word="adr lab%d", abs="lda lab%d", jmp="jmp lab%d", sbra="bne lab%d", equ="adr equ%d"),
                 "6809": dict(word="fdb lab%d", abs="lda lab%d", jmp="jmp lab%d", bra="lbra lab%d", sbra="bra lab%d",
                              equ="fdb equ%d"),
@@ -194,8 +194,8 @@ def decode(tn, kind, mem, a):
             if op == want[1]:
                 return (be16(2) << 16) | be16(4), 6
             raise ValueError("opcode %04x" % op)
-        opb = {"bra": 0x60, "bsr": 0x61, "bcc": 0x67}[kind]
-        if kind != "bsr" and be16(0) == 0x4e71:
+        opb = {"bra": 0x60, "bsr": 0x61, "bsrx": 0x61, "bcc": 0x67}[kind]
+        if kind not in ("bsr", "bsrx") and be16(0) == 0x4e71:
             return a + 2, 2       # a short branch to the next instruction cannot be encoded: NOP does the same
         if b(0) != opb:
             raise ValueError("opcode %02x" % b(0))
@@ -292,7 +292,7 @@ def execute(case):
     nt = []
     if nfwd:
         nt.append("fwd")
-    if any(x[1] in ("abs", "jmp", "bra", "bsr", "bcc") and x[3] for x in refs):
+    if any(x[1] in ("abs", "jmp", "bra", "bsr", "bsrx", "bcc") and x[3] for x in refs):
         nt.append("fwd-varsize")
     if has_odd and any(it[0] == "fill" and it[1] % 2 for it in items):
         nt.append("pad")
@@ -426,6 +426,7 @@ def fixed_cases(tier):
                         items=[["ref", "word", 0, 0], ["fill", 1], ["lab", 0]]))
         out.append(dict(target="68000", origin=0, padding=pad,
                         items=[["ref", "bra", 0, 0], ["fill", 125], ["fill", 1], ["lab", 0], ["ref", "bsr", 0, 1]]))
+    out.append(dict(target="68000", origin=0, padding=True, items=[["ref", "bsrx", 0, 0], ["lab", 0]]))
     for org in (0x7ffffe00, 0x80000000, 0xffff7f00):
         for pad in (True, False):
             out.append(dict(target="68020", origin=org, padding=pad,
@@ -439,8 +440,28 @@ def fixed_cases(tier):
     return out
 
 
-def _k_livelock(case, out):
+def _k_bsr_expr_next(case, out):
+    """68000 family: BSR whose operand is an expression (here lab+0) and whose target is the instruction
+    directly behind the BSR; only the livelock outcome is covered"""
+    if "golden" in case or case.get("target") not in ("68000", "68020"):
+        return False
+    if "livelock" not in out.classes and "status 97" not in out.why:
+        return False
+    items = case["items"]
+    for i, it in enumerate(items):
+        if it[0] == "ref" and it[1] == "bsrx":
+            j = i + 1
+            while j < len(items) and items[j][0] == "fill" and items[j][1] == 0:
+                j += 1
+            while j < len(items) and items[j][0] == "lab":
+                if items[j][1] == it[2]:
+                    return True
+                j += 1
     return False
 
 
-KNOWN = {}
+KNOWN = {
+    "bsr-expr-next": ("68000 family: 'bsr next+0' (operand is an expression, target directly behind the BSR) "
+                      "oscillates between the 8 and 16 bit form for ever; only a plain label operand carries the "
+                      "NextLabelAfterBSR flag that prevents this", _k_bsr_expr_next),
+}
